@@ -84,9 +84,17 @@ func c15RunFan(in c15FanIn) (obs c15FanObs) {
 			obs.Bad = append(obs.Bad, fmt.Sprintf("connect %s refused %d", c.Cid, code))
 			continue
 		}
+		if c.Rejoin {
+			c15Quiesce(env.open)
+		}
 		for _, s := range c.Subs {
 			if r := cli.subscribe([]string{s.F}, []byte{byte(s.Q)}); r != "ok" {
 				obs.Bad = append(obs.Bad, fmt.Sprintf("subscribe %s %s: %s", c.Cid, s.F, r))
+			}
+			if c.Rejoin {
+				// Session.store() hands every snapshot to its own goroutine: two snapshots in flight may reach the
+				// storage in either order. Let each one land before the next change, as the C16 harness does.
+				c15Quiesce(env.open)
 			}
 		}
 		live[c.Cid] = cli
@@ -100,6 +108,9 @@ func c15RunFan(in c15FanIn) (obs c15FanObs) {
 		for _, f := range c.Unsubs {
 			if r := cli.unsubscribe([]string{f}); r != "ok" {
 				obs.Bad = append(obs.Bad, fmt.Sprintf("unsubscribe %s %s: %s", c.Cid, f, r))
+			}
+			if c.Rejoin {
+				c15Quiesce(env.open)
 			}
 		}
 		if c.Left {
